@@ -53,7 +53,7 @@ RULE = ("Part A: Hypothesis-generated solutions on the shipped ion-association d
         "reported MU, DH_A, DH_B (1e-9). Non-trivial (IA) = >= 5 checked species with |LG| > 1e-3. "
         "Part B: composition paths c(t) = t * (mixture of 1-4 exactly stoichiometric neutral salts) on pitzer.dat, sit.dat, "
         "frezchem.dat, ColdChem.dat and pitzer.dat+Concrete_PZ.dat, t on a geometric grid of 64/128/256 intervals from 1e-4..1e-2 "
-        "to a nominal ionic strength of 0.05..6 molal, fixed temperature 0-100 C (frezchem/ColdChem 0-25 C), 1 atm, each node a "
+        "to a nominal ionic strength of 0.05..5.8 molal (reported MU at the end <= 6), fixed temperature 0-100 C (frezchem/ColdChem 0-25 C), 1 atm, each node a "
         "charge-balanced solution ('pH 7 charge') or a REACTION step on charge-balanced pure water; Gibbs-Duhem residual after "
         "Richardson extrapolation <= 1e-4 * sum|terms| (three nested trapezoid levels, inconclusive unless the refinement ratio is "
         "~4) and |ln a_w + phi*sum(m)/55.50837| <= 1e-5 at every node. Non-trivial (path) = reported MU at the last node >= 0.5 "
@@ -86,11 +86,12 @@ SHARDS = {"quick": 8, "thorough": 16}
 if os.environ.get("C16_DEV_SHARDS"):
     SHARDS = {"quick": int(os.environ["C16_DEV_SHARDS"]), "thorough": int(os.environ["C16_DEV_SHARDS"])}
 # per shard: (c01-type IA cases, brine IA cases, paths)
-BUDGET = {"quick": (200, 200, 80), "thorough": (1600, 1600, 640), "replay": (1, 1, 1)}
+BUDGET = {"quick": (200, 400, 120), "thorough": (1500, 3000, 900), "replay": (1, 1, 1)}
 
 TOL_LG = 1e-9
 TOL_GD = 1e-4
 TOL_AW = 1e-5
+I_MIN, I_MAX = 1e-4, 6.0          # ionic-strength range the property quantifies over
 ABSENT = -99.99
 LN10 = math.log(10.0)
 
@@ -211,7 +212,7 @@ def brine_st(draw, databases):
     majors = [m for m in MAJOR if _label(inf, m)]
     nm = draw(st.integers(1, min(6, len(majors))))
     chosen = draw(st.lists(st.sampled_from(majors), min_size=nm, max_size=nm, unique=True))
-    level = draw(st.floats(-4.0, 0.0))          # salinity level of the case: majors up to 10^level * their cap
+    level = draw(st.floats(-3.5, 0.0))          # salinity level of the case: majors up to 10^level * their cap
     comps = []
     for m in chosen:
         hi = MAJOR_HI[m] * 10 ** level
@@ -230,8 +231,27 @@ def brine_st(draw, databases):
     return {"kind": "ia", "gen": "brine", "db": dbn, "sols": [sol], "react": []}
 
 
+def _into_range(case):
+    """C01's generator spreads ionic strengths over 1e-9..25; bring each solution's nominal ionic strength (master-species
+    charges, full dissociation) into 3e-4..4 molal by scaling all its concentrations with one factor (construction, not rejection)"""
+    inf = c01.info(case["db"])
+    for sol in case["sols"]:
+        mol = c01.expected_molalities(inf, sol)[0]
+        salt = 0.5 * sum(inf.master_charge.get(c["el"], 0.0) ** 2 * m for c, m in zip(sol["comps"], mol))
+        acid = 0.5 * (10.0 ** -sol["pH"] + 10.0 ** (sol["pH"] - 14.0))
+        f = 1.0
+        if salt + acid > 4.0:
+            f = 4.0 / (salt + acid)
+        elif salt + acid < 3e-4 and salt > 0:
+            f = min(3e-4 / salt, 1e6)
+        if f != 1.0:
+            for c in sol["comps"]:
+                c["value"] = c01._r(c["value"] * f, 5)
+    return dict(case, kind="ia", gen="c01")
+
+
 def ia_c01_st(databases):
-    return c01.case_st(databases).map(lambda c: dict(c, kind="ia", gen="c01"))
+    return c01.case_st(databases).map(_into_range)
 
 
 def ia_input(inf, case):
@@ -314,6 +334,7 @@ def check_ia(case, ctx):
     nz = 0
     worst = 0.0
     tcs, mus = [], []
+    skipped_rows = 0
     for r in range(1, T.rows):
         row = T.cells[r]
         v = {key: row[j] for (key, _), j in zip(items, ucol)}
@@ -321,8 +342,10 @@ def check_ia(case, ctx):
         for name, x in (("MU", mu), ("DH_A", A), ("DH_B", B), ("TC", tc), ("TK", tk)):
             if not isinstance(x, float) or x != x:
                 raise RuntimeError("row %d: %s = %r" % (r, name, x))
-        if mu <= 0:
-            raise Discard("ia_zero_ionic_strength")
+        if not (I_MIN <= mu <= I_MAX):
+            # the property quantifies over compositions from 1e-4 to 6 molal
+            skipped_rows += 1
+            continue
         tcs.append(tc)
         mus.append(mu)
         where = "row %d (%s, %.6g C, MU %.6g)" % (r, row[col["state"]] if "state" in col else "?", tc, mu)
@@ -361,7 +384,11 @@ def check_ia(case, ctx):
                 raise Violation(ORACLE_OF[label], "%s: LG(%s) = %r, but %s (line %s: model %r, z = %g) gives %s = %r at MU = %r, "
                                 "DH_A = %r, DH_B = %r, TK = %r; difference %.3e"
                                 % (where, s, lg, case["db"], sp.line, sp.gamma_model, sp.charge, label, e, mu, A, B, tk, d))
-    nrows = T.rows - 1
+    nrows = T.rows - 1 - skipped_rows
+    if skipped_rows:
+        ctx.event("ia:rows_outside_1e-4..6_molal_ionic_strength(not_asserted)", skipped_rows)
+    if nrows == 0:
+        raise Discard("ia_ionic_strength_outside_1e-4..6")
     classes = ["ia", "ia:gen=" + case.get("gen", "?"), "ia:db=" + case["db"], "ia:rows=%d" % min(nrows, 4)]
     classes += ["ia:model=" + m for m in sorted(models)]
     classes += ["ia:" + t for t in sorted({t_bucket(t) for t in tcs})]
@@ -469,7 +496,7 @@ def path_st(draw):
     salts = [[s, draw(cg.logu(0.05, 1.0, 3))] for s in chosen]
     temp = draw(temp_st(tlo, thi))
     k = draw(st.integers(0, 3))
-    imax = draw(cg.logu(0.05, 6.0, 3) if k == 0 else cg.logu(0.6, 6.0, 3) if k == 1 else cg.uni(0.6, 6.0, 3))
+    imax = draw(cg.logu(0.05, 5.8, 3) if k == 0 else cg.logu(0.6, 5.8, 3) if k == 1 else cg.uni(0.6, 5.8, 3))
     t0 = draw(st.sampled_from([1e-4, 1e-4, 1e-3, 1e-2]))
     if t0 * 20 > imax:
         t0 = 1e-4
@@ -607,6 +634,8 @@ def check_path(case, ctx):
         if k == len(rows) - 1:
             mu_end = v["MU"]
             ions_end = sum(1 for s in species if db.species[s].charge != 0 and m[s] > 1e-6)
+    if mu_end > I_MAX:
+        raise Discard("path_beyond_6_molal_ionic_strength")
     an = gd.analyse(nodes)
     if an["max_skipped_molality"] > 1e-10:
         # a species enters or leaves the model along the path with a non-negligible molality: the sum cannot be formed
